@@ -179,6 +179,11 @@ pub fn range_honest(
 ) -> Option<RangeRun> {
     let book = ctx.book.clone();
     let mut rng = ScriptedRng::new(ctx.prng.gen(), book.clone());
+    if !ctx.forced_next.is_empty() {
+        // caller-prescribed first draws (a digit's blinding factor solved against the range key)
+        let f = std::mem::take(&mut ctx.forced_next);
+        rng.force_scalars(&f);
+    }
     let builder = match RangeConstraintBuilder::generate_constraint_commitments(value, rp, &mut rng) {
         Ok(b) => b,
         Err(_) => {
